@@ -147,26 +147,51 @@ theorem getattr_plain {c : Cls} (hwf : WF c) {d : Dict} (hg : Good c d) {a sp : 
     subst this
     rw [hd]; rfl
   | none =>
-    simp only [declMatch_eq hwf ha h]
+    simp only [declMatch_eq hwf ha h, hr, ↓reduceIte]
     cases hda : dget d a with
     | some v => rfl
-    | none => simp [hr, cellRead]
+    | none => rfl
 
 theorem setattr_plain {c : Cls} (hwf : WF c) (d : Dict) {a sp : Name} (v : Val)
     (ha : a ∈ c.names) (hr : a ∉ c.refs) (h : fold sp = fold a) :
     setattr c d sp v = (dset d a v, .ok) := by
   unfold setattr
-  simp only [declMatch_eq hwf ha h]
-  cases dget d a <;> simp [hr]
+  simp only [declMatch_eq hwf ha h, hr, ↓reduceIte]
 
 /-- writing a referential attribute under any spelling raises and leaves `__dict__` untouched -/
 theorem setattr_ref {c : Cls} (hwf : WF c) {d : Dict} (hg : Good c d) {a sp : Name} (v : Val)
     (hr : a ∈ c.refs) (h : fold sp = fold a) :
     setattr c d sp v = (d, .metaExc) := by
   have ha : a ∈ c.names := hwf.2 a hr
-  have hnk : dget d a = none := (dget_none_iff d a).mpr (fun hk => hg.2 a hk hr)
+  have _hnk : dget d a = none := (dget_none_iff d a).mpr (fun hk => hg.2 a hk hr)
   unfold setattr
-  simp only [declMatch_eq hwf ha h, hnk, hr, ↓reduceIte]
+  simp only [declMatch_eq hwf ha h, hr, ↓reduceIte]
+
+/-- `__dict__` holds no key that folds to a declared name other than that declared name itself (the first half of
+    `Good`): what an instance created BEFORE `formalize` still satisfies, although it stores the referential value -/
+def NoStray (c : Cls) (d : Dict) : Prop := ∀ k ∈ keys d, ∀ a ∈ c.names, fold k = fold a → k = a
+
+/-- a referential attribute is read through its property under EVERY spelling, whatever `__dict__` holds under the
+    declared name -/
+theorem getattr_ref_shadow {c : Cls} (hwf : WF c) {d : Dict} (hn : NoStray c d) {a sp : Name}
+    (hr : a ∈ c.refs) (h : fold sp = fold a) : getattr c d sp = .prop a := by
+  have ha : a ∈ c.names := hwf.2 a hr
+  unfold getattr
+  by_cases hsp : sp ∈ c.refs
+  · rw [if_pos hsp, hwf.inj (hwf.2 sp hsp) ha h]
+  · rw [if_neg hsp]
+    cases hd : dget d sp with
+    | some v =>
+      exfalso
+      have : sp = a := hn sp (dget_some_mem hd) a ha h
+      exact hsp (this ▸ hr)
+    | none => simp only [declMatch_eq hwf ha h, hr, ↓reduceIte]
+
+/-- writing a referential attribute under any spelling raises and leaves `__dict__` untouched, whatever it holds -/
+theorem setattr_ref_any {c : Cls} (hwf : WF c) (d : Dict) {a sp : Name} (v : Val)
+    (hr : a ∈ c.refs) (h : fold sp = fold a) : setattr c d sp v = (d, .metaExc) := by
+  unfold setattr
+  simp only [declMatch_eq hwf (hwf.2 a hr) h, hr, ↓reduceIte]
 
 theorem declMatch_some {c : Cls} {sp a : Name} (h : declMatch c sp = some a) : a ∈ c.names ∧ fold a = fold sp := by
   unfold declMatch at h
